@@ -41,6 +41,16 @@ def run_one(args) -> dict:
     key = hashlib.sha1(json.dumps(cfg, sort_keys=True).encode()).hexdigest()[:16]
     out = CACHE / th / key
     done = out / "done.json"
+    (CACHE / th).mkdir(parents=True, exist_ok=True)
+    # several checks share this corpus and may run at the same time: one runner per key
+    import fcntl  # noqa: PLC0415
+
+    with open(CACHE / th / f"{key}.lock", "w") as lock:
+        fcntl.flock(lock, fcntl.LOCK_EX)
+        return _run_locked(cfg, out, done, timeout)
+
+
+def _run_locked(cfg: dict, out: Path, done: Path, timeout: int) -> dict:
     if done.exists():
         return load(out, cfg, cached=True)
     shutil.rmtree(out, ignore_errors=True)
@@ -84,11 +94,17 @@ def load(out: Path, cfg: dict, cached: bool) -> dict:
 
 def run_many(cfgs: list[dict], timeout: int = 900, parallel: int = 6) -> list[dict]:
     th = tree_hash()
-    # prune caches of other trees
+    # prune caches of other trees, but only old ones: a check against another tree (a scratch worktree,
+    # or /repo before a commit) may still be running
+    import time  # noqa: PLC0415
+
     if CACHE.exists():
         for d in CACHE.iterdir():
-            if d.name != th:
-                shutil.rmtree(d, ignore_errors=True)
+            try:
+                if d.name != th and time.time() - d.stat().st_mtime > 6 * 3600:
+                    shutil.rmtree(d, ignore_errors=True)
+            except OSError:
+                pass
     with ThreadPoolExecutor(max_workers=parallel) as ex:
         return list(ex.map(run_one, [(c, th, timeout) for c in cfgs]))
 
